@@ -22,6 +22,7 @@ use crate::Result;
 pub struct StateV01 {
     #[serde(rename = "_type")]
     typ: String,
+    #[serde(serialize_with = "crate::models::serialize_artifacts")]
     subject: BTreeMap<VirtualTargetPath, TargetDescription>,
     #[serde(rename = "predicateType")]
     predicate_type: PredicateVer,
